@@ -48,7 +48,7 @@ AGP = "g.fa.agp"
 
 _IO_BUFS = [1, 2, 3, 7, 16, 61, 64, 100, 4096, 8192]
 _IDX_BUFS = [1, 2, 3, 5, 7, 13, 64, 250, 250_000]
-_FAULT_KINDS = ["crash", "crash", "crash", "torn_write", "torn_write", "enospc", "eio_write", "eio_read", "eacces_open"]
+_FAULT_KINDS = ["crash", "crash", "crash", "torn_write", "torn_write", "enospc", "eio_write", "short_write", "eio_read", "eacces_open"]
 
 
 # ---------------------------------------------------------------------------
@@ -87,7 +87,7 @@ def gen_case(rng, tier):
         hist.append({"op": "LOAD", "entry": _entry(rng), "dt": rng.choice([0, 1, 1, 2])})
     for _ in range(L):
         r = rng.random()
-        dt = rng.choice([0, 0, 1, 1, 2, 5])
+        dt = rng.choice([0, 0, 1, 1, 2, 5, -3])  # -3: the clock jumps back (NTP step, another host's clock)
         if r < 0.28:
             hist.append({"op": "LOAD", "entry": _entry(rng), "dt": dt})
         elif r < 0.48:
@@ -501,6 +501,14 @@ class Exec:
             except OSError:
                 prev = None
             when = w.clock if prev is None else max(prev + 1, w.clock)
+            # "rewritten with a later mtime": never older than what is already there,
+            # even if the clock has jumped back since the cache was written (a tie is
+            # allowed - that is what the strict comparison is for)
+            for rel in (FAI, AGP):
+                try:
+                    when = max(when, os.stat(os.path.join(self.root, rel)).st_mtime_ns // 1_000_000_000)
+                except OSError:
+                    pass
             if when > w.clock:
                 w.advance(when - w.clock)
             target = str(self.fa)
@@ -847,7 +855,7 @@ def representative_points(kind, evs, n, rng):
     ops = {t[1]: t[2] for t in evs}
     if kind == "crash":
         ks = [0] + [k for k in range(1, n) if k - 1 in ops and is_mutating_op(ops[k - 1])]
-    elif kind in ("torn_write", "enospc", "eio_write"):
+    elif kind in ("torn_write", "enospc", "eio_write", "short_write"):
         ks = [k for k in range(n) if ops.get(k) == "write"]
     elif kind == "eacces_open":
         ks = [k for k in range(n) if ops.get(k, "").startswith("open:") and is_mutating_op(ops[k])]
